@@ -242,3 +242,76 @@ package server
 //@   requires esp != nil && esp.localNamespaces != nil && esp.store != nil && esp.localPropertyMappings != nil
 //@   ensures [no-transaction-on-error] ret1 != nil ==> ret0 == nil
 //@   safe typeassert nilmap
+
+// ---------------------------------------------------------------------------
+// C18 / C02: the change log of a dataset
+
+//@ spec isChange(k int, ds int) bool = kcl(k) == 4 && kf32(k) == ds
+
+//@ unit (*Dataset).GetChangesWatermark
+//@   prop C18
+//@   ghost txnG int
+//@   requires ds != nil && ds.store != nil
+//@   ensures [empty-log-is-zero] ret1 == nil && (forall i int :: 0 <= i && i < N(txnG) ==> !isChange(K(txnG, i), ds.InternalID)) ==> ret0 == 0
+//@   ensures [above-every-change] ret1 == nil ==> (forall i int :: 0 <= i && i < N(txnG) && isChange(K(txnG, i), ds.InternalID) ==> kseq(K(txnG, i)) < ret0)
+//@   ensures [tight] ret1 == nil && ret0 > 0 ==> (exists i int :: 0 <= i && i < N(txnG) && isChange(K(txnG, i), ds.InternalID) && kseq(K(txnG, i)) + 1 == ret0)
+//@   safe slice index
+//@   at $1 call NewIterator#1
+//@     ghost txnG := txn
+
+//@ inline server.latestOnlyWrapper
+
+//@ lemma seq_monotone(t int, i int, j int, d int): 0 <= i && i <= j && j < N(t) && isChange(K(t, i), d) && isChange(K(t, j), d) ==> kseq(K(t, i)) <= kseq(K(t, j))
+//@ lemma seq_strict(t int, i int, j int, d int): 0 <= i && i < j && j < N(t) && isChange(K(t, i), d) && isChange(K(t, j), d) ==> kseq(K(t, i)) < kseq(K(t, j))
+
+//@ assumed bytes.Equal
+//@   pure
+
+//@ unit (*Dataset).ProcessChangesRaw
+//@   prop C02
+//@   ghost txnG int
+//@   ghost pos0 int
+//@   ghost cur int
+//@   ghost nextPos int
+//@   ghost emitted intset = emptyset()
+//@   ghost isLatestG bool = false
+//@   requires ds != nil && ds.store != nil && since >= 0
+//@   dyncall processChangedEntity pure
+//@   ensures [token-unchanged-when-nothing-found] ret1 == nil && nextPos == pos0 ==> ret0 == since
+//@   ensures [token-is-last-seen-plus-one] ret1 == nil && nextPos > pos0 ==> ret0 == kseq(K(txnG, nextPos - 1)) + 1
+//@   ensures [examined-are-this-datasets-changes] ret1 == nil ==> (forall j int :: pos0 <= j && j < nextPos ==> isChange(K(txnG, j), ds.InternalID) && kseq(K(txnG, j)) >= since)
+//@   ensures [nothing-skipped] ret1 == nil ==> (forall i int :: 0 <= i && i < N(txnG) && isChange(K(txnG, i), ds.InternalID) && kseq(K(txnG, i)) >= since && kseq(K(txnG, i)) < ret0 ==> pos0 <= i && i < nextPos)
+//@   ensures [emitted-only-examined] ret1 == nil ==> (forall j int :: has(emitted, j) ==> pos0 <= j && j < nextPos)
+//@   ensures [full-feed-emits-every-examined] ret1 == nil && !latestOnly ==> (forall j int :: pos0 <= j && j < nextPos ==> has(emitted, j))
+//@   ensures [exhausted-or-limit] ret1 == nil ==> limit > 0 || nextPos == N(txnG) || !isChange(K(txnG, nextPos), ds.InternalID)
+//@   safe slice index
+//@   at $1 call NewIterator#1
+//@     ghost txnG := txn
+//@   at $1 call Seek#1
+//@     ghost pos0 := $itPos[changesIterator]
+//@     ghost nextPos := $itPos[changesIterator]
+//@   at $1 call Item#1
+//@     ghost cur := $itPos[changesIterator]
+//@     use seq_monotone(txnG, pos0, cur, ds.InternalID)
+//@   at $1$1$1 call processChangedEntity#1 before
+//@     assert [emitted-once] !has(emitted, cur)
+//@     ghost emitted := add(emitted, cur)
+//@   at @latestOnlyWrapper$1 call Get#1 before
+//@     assert [latest-pointer-of-this-entity] len(key) == 14 && encBE16(key, 0) == 8 && encBE32(key, 2) == ds.InternalID && encBE64(key, 6) == krid(K(txnG, cur))
+//@   at @latestOnlyWrapper$1$1 call Equal#1
+//@     ghost isLatestG := $result
+//@   at @latestOnlyWrapper$1$1 call next#1 before
+//@     assert [latest-only-emits-only-latest] isLatestG
+//@   at $1 call Value#1
+//@     ghost nextPos := cur + 1
+//@   loop $1:1
+//@     invariant pos0 <= $itPos[changesIterator] && $itPos[changesIterator] <= N(txnG) && nextPos == $itPos[changesIterator] && 0 <= pos0
+//@     invariant $itTxn[changesIterator] == txnG && !has($itRev, changesIterator) && $itPlen[changesIterator] == 6 && $itPcl[changesIterator] == 4 && $itPds[changesIterator] == ds.InternalID
+//@     invariant encBE16(searchBuffer, 0) == 4 && encBE32(searchBuffer, 2) == ds.InternalID && len(searchBuffer) == 14
+//@     invariant foundChanges <==> nextPos > pos0
+//@     invariant foundChanges ==> lastSeen == kseq(K(txnG, nextPos - 1))
+//@     invariant forall j int :: pos0 <= j && j < nextPos ==> isChange(K(txnG, j), ds.InternalID) && kseq(K(txnG, j)) >= since
+//@     invariant forall i int :: 0 <= i && i < pos0 ==> kcl(K(txnG, i)) < 4 || (kcl(K(txnG, i)) == 4 && (kf32(K(txnG, i)) < ds.InternalID || (kf32(K(txnG, i)) == ds.InternalID && kseq(K(txnG, i)) < since)))
+//@     invariant pos0 < N(txnG) && isChange(K(txnG, pos0), ds.InternalID) ==> kseq(K(txnG, pos0)) >= since
+//@     invariant forall j int :: has(emitted, j) ==> pos0 <= j && j < nextPos
+//@     invariant !latestOnly ==> (forall j int :: pos0 <= j && j < nextPos ==> has(emitted, j))
